@@ -1,5 +1,6 @@
 import PhotVerif.Driver.ApSum
 import PhotVerif.Model.PsfBook
+import PhotVerif.Model.Psf
 namespace PhotVerif.Driver
 open PhotVerif PhotVerif.Model PhotVerif.Model.PsfBook
 
@@ -25,6 +26,21 @@ def handlePsf (op : String) (args : List String) : Option String :=
       let ny ← parseNat? ny; let nx ← parseNat? nx; let fy ← parseNat? fy; let fx ← parseNat? fx
       let npix ← parseNat? npix; let xf ← parseRat? xf; let yf ← parseRat? yf; let fl ← parseRat? fl
       some s!"ok {flags ny nx fy fx npix xf yf fl false false false}"
+  | "psf.bounds", [gs, [x]] => do
+      let g ← allSome (gs.map parseRat?); let x ← parseRat? x
+      if g.isEmpty then none else
+      let (a, b) := Model.Psf.bounds1 g x
+      some s!"ok {showRat a} {showRat b}"
+  | "psf.weights", [[x0, x1, y0, y1, x, y]] => do
+      let x0 ← parseRat? x0; let x1 ← parseRat? x1; let y0 ← parseRat? y0; let y1 ← parseRat? y1
+      let x ← parseRat? x; let y ← parseRat? y
+      let (a, b, c, d) := Model.Psf.bilinearWeights x0 x1 y0 y1 x y
+      some s!"ok {showRat a} {showRat b} {showRat c} {showRat d}"
+  | "psf.coord", [[os, origin, x, x0, n]] => do
+      let os ← parseRat? os; let origin ← parseRat? origin; let x ← parseRat? x; let x0 ← parseRat? x0
+      let n ← parseNat? n
+      let xi := Model.Psf.arrayCoord os origin x x0
+      some s!"ok {showRat xi} {Model.Psf.isInvalid n xi}"
   | _, _ => none
 
 end PhotVerif.Driver
